@@ -11,7 +11,7 @@ SRCS="$WT/src/babylon/concurrent/*.cpp $WT/src/babylon/*.cpp $WT/src/babylon/reu
 LIBS="-labsl_time_zone -lprotobuf -labsl_base -labsl_time -labsl_strings -labsl_int128 -labsl_raw_logging_internal -labsl_throw_delegate -labsl_hash -labsl_raw_hash_set -labsl_city -labsl_low_level_hash -labsl_bad_optional_access -labsl_cord -labsl_synchronization -labsl_status -labsl_strings_internal -labsl_str_format_internal -lpthread -ldl -latomic"
 FLAGS="-std=gnu++20 -O1 -g -DNDEBUG -w -fno-access-control -I$WT/src -isystem /root/miniconda/include"
 lib() { mkdir -p $WT/_o && ( cd $WT/_o && ls $SRCS $WT/src/babylon/anyflow/*.cpp $WT/src/babylon/anyflow/builtin/*.cpp 2>/dev/null | xargs -P 16 -I{} sh -c 'g++ '"$FLAGS"' -c {} -o $(echo {} | md5sum | cut -c1-12).o' ) && ar rcs $WT/_lib.a $WT/_o/*.o; }
-demo() { g++ $FLAGS $D/demo.cpp $WT/_lib.a $LIBS -o $WT/_demo 2>$WT/_demo.err && ( cd $WT && timeout 120 ./_demo >$WT/_demo.out 2>&1 ); }
+demo() { g++ $FLAGS $D/demo.cpp $WT/_lib.a $LIBS -o $WT/_demo 2>$WT/_demo.err && ( cd $WT && timeout 900 ./_demo >$WT/_demo.out 2>&1 ); }
 lib || { echo "NOT-CONFIRMED: base tree does not build"; git -C /repo worktree remove --force $WT; exit 1; }
 demo; R0=$?
 ( cd $WT && git apply $D/patch.diff ) || { echo "NOT-CONFIRMED: patch does not apply"; git -C /repo worktree remove --force $WT; exit 1; }
